@@ -32,6 +32,10 @@ def arith(op, x, y):
         return x / y
     if op == "**":
         return x ** y
+    if op == "%":
+        return x % y
+    if op == "//":
+        return x // y
     raise ValueError(op)
 
 
@@ -45,6 +49,8 @@ def build_expr(af, e, pool):
         return unhex(e["v"])
     if t == "unary":                         # opt-in node kind (C01): -x, abs(x)
         x = build_expr(af, e["a"], pool)
+        if e["op"] in ("log", "log10"):      # af.Log(x) / af.Log10(x): ModifiedPrior forms computed with numpy
+            return af.Log(x) if e["op"] == "log" else af.Log10(x)
         return -x if e["op"] == "neg" else abs(x)
     if t == "arith":
         x = build_expr(af, e["l"], pool)
@@ -153,7 +159,7 @@ def abstract_model(af, obj, idmap):
     """Raw __dict__ walk of a live model object -> JSON tree of the ModelTree shape."""
     from autofit.mapper.prior.abstract import Prior
     from autofit.mapper.prior.tuple_prior import TuplePrior
-    from autofit.mapper.prior.arithmetic.compound import CompoundPrior, SumPrior, MultiplePrior, DivisionPrior
+    from autofit.mapper.prior.arithmetic.compound import CompoundPrior, ModifiedPrior
     from autofit.mapper.prior_model.prior_model import Model
     from autofit.mapper.prior_model.collection import Collection
     if isinstance(obj, Prior):
@@ -170,14 +176,16 @@ def abstract_model(af, obj, idmap):
             ms.append([k, abstract_model(af, v, idmap)])
         return {"t": "tuple", "members": ms}
     if isinstance(obj, CompoundPrior):
-        op = {"SumPrior": "+", "MultiplePrior": "*", "DivisionPrior": "/"}.get(type(obj).__name__)
+        op = {"SumPrior": "+", "MultiplePrior": "*", "DivisionPrior": "/", "PowerPrior": "**", "ModPrior": "%", "FloorDivPrior": "//"}.get(type(obj).__name__)
         if op is None:
-            op = "-" if type(obj).__name__ == "SumPrior" else type(obj).__name__
+            op = type(obj).__name__
         return {"t": "arith", "op": op, "ln": obj._left_name, "rn": obj._right_name,
                 "l": abstract_model(af, obj._left, idmap), "r": abstract_model(af, obj._right, idmap),
                 "keys": [k for k in obj.__dict__ if not k.startswith("_") and k != "id"]}
-    if type(obj).__name__ == "NegativePrior":
-        return {"t": "neg", "name": obj._prior_name, "a": abstract_model(af, obj.prior, idmap)}
+    if isinstance(obj, ModifiedPrior):           # -x, abs(x) (af.Log / af.Log10: op = the class name)
+        op = {"NegativePrior": "neg", "AbsolutePrior": "abs", "Log": "log", "Log10": "log10"}.get(type(obj).__name__, type(obj).__name__)
+        return {"t": "unary", "op": op, "name": obj._prior_name, "a": abstract_model(af, obj.__dict__.get(obj._prior_name), idmap),
+                "keys": [k for k in obj.__dict__ if not k.startswith("_") and k != "id"]}
     if isinstance(obj, Model):
         attrs = []
         for k, v in obj.__dict__.items():
